@@ -365,4 +365,92 @@ theorem mem_mapVals {f : Tmpl → Tmpl} {d : Dict} {e : Name × Tmpl} (h : e ∈
   unfold mapVals
   exact List.mem_map.mpr ⟨e, h, rfl⟩
 
+theorem mapVals_mapVals (f g : Tmpl → Tmpl) (d : Dict) : mapVals g (mapVals f d) = mapVals (fun t => g (f t)) d := by
+  induction d with
+  | nil => rfl
+  | cons e r ih => rw [mapVals_cons, mapVals_cons, mapVals_cons, ih]
+
+theorem filter_keys_congr (base a b : Dict) (h : ∀ k, hasKey a k = hasKey b k) :
+    base.filter (fun e => !hasKey a e.1) = base.filter (fun e => !hasKey b e.1) := by
+  apply List.filter_congr
+  intro e _
+  rw [h]
+
+/-! ### two refinements of a component context `C = base ∪ (A ++ O)`
+
+`ctx0`: every own value replaced by its interpolation (what a stored component's `variables` hold);
+`ctxP`: the values of `A` replaced, those of `O` (the raw override block, applied again) not. -/
+
+theorem refine_all (N : Nat) (base X : Dict)
+    (hcl : ∀ e ∈ X, closedIn (update base X) (interp N (update base X) e.2) = true) :
+    ∀ (n : Nat) (t : Tmpl), closedIn (update base X) (interp n (update base X) t) = true →
+      interp n (update base (mapVals (interp N (update base X)) X)) t = interp n (update base X) t := by
+  apply interp_refine N
+  · intro k; simp [hasKey_update]
+  · intro v r hv
+    rw [get?_update] at hv
+    rw [get?_update, get?_mapVals]
+    cases hX : get? X v with
+    | none =>
+      rw [hX] at hv
+      left
+      simpa using hv
+    | some a =>
+      rw [hX] at hv
+      have : a = r := by simpa using hv
+      subst this
+      right
+      exact ⟨by simp, hcl (v, a) (get?_some_mem hX)⟩
+
+theorem refine_left (N : Nat) (base A O : Dict)
+    (hcl : ∀ e ∈ A, closedIn (update base (A ++ O)) (interp N (update base (A ++ O)) e.2) = true) :
+    ∀ (n : Nat) (t : Tmpl), closedIn (update base (A ++ O)) (interp n (update base (A ++ O)) t) = true →
+      interp n (update base (mapVals (interp N (update base (A ++ O))) A ++ O)) t
+        = interp n (update base (A ++ O)) t := by
+  apply interp_refine N
+  · intro k; simp [hasKey_update, hasKey_append]
+  · intro v r hv
+    rw [get?_update, get?_append] at hv
+    rw [get?_update, get?_append, get?_mapVals]
+    cases hA' : get? A v with
+    | some a =>
+      rw [hA'] at hv
+      have : a = r := by simpa using hv
+      subst this
+      right
+      exact ⟨by simp, hcl (v, a) (get?_some_mem hA')⟩
+    | none =>
+      rw [hA'] at hv
+      left
+      simpa using hv
+
+/-- the resolved variable dictionaries of the two refined contexts coincide (abstract form) -/
+theorem mapVals_ctx_eq (f g0 gP : Tmpl → Tmpl) (C base A O : Dict)
+    (h0 : ∀ t, closedIn C (f t) = true → g0 t = f t) (hP : ∀ t, closedIn C (f t) = true → gP t = f t)
+    (hfix0 : ∀ t, closedIn C t = true → g0 t = t) (hfixP : ∀ t, closedIn C t = true → gP t = t)
+    (hcl : ∀ e ∈ A ++ O, closedIn C (f e.2) = true) (hbase : ∀ e ∈ base, closedIn C (f e.2) = true) :
+    mapVals g0 (update base (mapVals f (A ++ O))) = mapVals gP (update base (mapVals f A ++ O)) := by
+  unfold update
+  rw [filter_keys_congr base (mapVals f (A ++ O)) (A ++ O) (fun k => by simp),
+      filter_keys_congr base (mapVals f A ++ O) (A ++ O) (fun k => by simp [hasKey_append])]
+  rw [mapVals_append f A O, mapVals_append, mapVals_append, mapVals_append, mapVals_append]
+  congr 1
+  · apply mapVals_congr
+    intro e he
+    have hb := hbase e (List.mem_filter.mp he).1
+    rw [h0 _ hb, hP _ hb]
+  · congr 1
+    · rw [mapVals_mapVals, mapVals_mapVals]
+      apply mapVals_congr
+      intro e he
+      have := hcl e (List.mem_append_left _ he)
+      show g0 (f e.2) = gP (f e.2)
+      rw [hfix0 _ this, hfixP _ this]
+    · rw [mapVals_mapVals]
+      apply mapVals_congr
+      intro e he
+      have := hcl e (List.mem_append_right _ he)
+      show g0 (f e.2) = gP e.2
+      rw [hfix0 _ this, hP _ this]
+
 end St4sd.Instance
